@@ -32,12 +32,27 @@ def basin_models(ck, note):
         ck.model("BasinGraph-2x3-queen-carve", "MCBasinGraph.tla", "MCBasinGraph_queen23_carve.cfg", note=note, timeout=6000, xmx="24g")
 
 
+def hub_stage(ck, prop, bgraph, routers=True):
+    """Worlds that keep several basins above Boruvka's low-degree bound (the large-degree work list is
+    otherwise reached by one basin at most): lowered bound through the guarded knob in both tiers, the
+    library's own bound (grids of 1200+ nodes) in the thorough tier."""
+    q = ck.tier == "quick"
+    cases = list(cf.hub_cases(ck.seed + 400, prop, n_rook=3 if q else 24, n_queen=1 if q else 12, n_real=0 if q else 3,
+                              bgraph=bgraph, routers=routers))
+    ck.traces(cases, [prop], tag=prop.lower() + "hub", nontrivial=cf.nontrivial_world, timeout_ms=120000,
+              sample_events=("BasinGraph",) if bgraph else ("Update",))
+    ck.ev.cov["hub_worlds"] = len(cases)
+
+
 def plan_C01(ck):
     q = ck.tier == "quick"
     basin_models(ck, "L2 mst resolver: every terminal state satisfies FlowContract!C01 (terminals, strict descent, reaches a base level), the receivers stay a forest, the tree is a minimal spanning forest, termination")
     pflood_models(ck, "L2 priority flood, all queue tie-breaks: terminal states satisfy Drains (every node connected to a base level keeps a strictly lower unmasked neighbour) and FlowContract!C02")
     ck.traces(cf.resolver_cases(ck.seed, 150 if q else 4000, 5 if q else 8, "C01"), ["C01"], tag="c01",
               nontrivial=cf.nontrivial_world)
+    if q and ck.violations:
+        return
+    hub_stage(ck, "C01", bgraph=False)
 
 
 def plan_C02(ck):
@@ -46,6 +61,9 @@ def plan_C02(ck):
     pflood_models(ck, "L2 priority flood refines FlowContract!C02 (spill level + at most N increments, fixed nodes untouched) for every field over the levels, every tie-break")
     ck.traces(cf.resolver_cases(ck.seed + 1, 150 if q else 4000, 5 if q else 8, "C02"), ["C02"], tag="c02",
               nontrivial=cf.nontrivial_world)
+    if q and ck.violations:
+        return
+    hub_stage(ck, "C02", bgraph=False)
 
 
 def router_models(ck):
@@ -262,11 +280,43 @@ def plan_C20(ck):
     ck.traces(cases, ["C20"], tag="c20", sample_events=("New",))
 
 
+def union_find_replay(ck):
+    """The structure Kruskal's tree construction relies on.  TLC checks that the L2 forest (union by rank,
+    path compression, resize/clear/push_back as coded) refines the L1 partition on every reachable state with
+    at most MaxN elements and prints every transition with a shortest history; every transition is replayed
+    through the real class and the recorded observations are validated against L1 by UFTrace."""
+    import checks_uf as cu
+    q = ck.tier == "quick"
+    r = ck.model("UnionFind-4-elements", "MCUnionFind.tla", "MCUnionFind_quick.cfg",
+                 workers=1, timeout=3000, required_actions=("MCFind", "MCMerge", "MCClear", "MCResize", "MCPush"),
+                 note="L2 parent/rank forest refines the L1 partition: TypeOK, Acyclic, RefinesPartition, ClassesArePartition, HeightBound on the complete state graph; every transition printed for replay")
+    if r.error is not None:
+        return
+    cases = list(cu.cases_from_tlc_output(r.out, "uf-tlc", sample=8000 if q else None, seed=ck.seed))
+    n_tr = sum(len(c["seqs"]) for c in cases)
+    ck.ev.cov["union_find_transitions_replayed"] = n_tr
+    if n_tr == 0:
+        raise vlib.MachineryError("MCUnionFind printed no transition")
+    if not q:
+        ck.model("UnionFind-5-elements", "MCUnionFind.tla", "MCUnionFind_5.cfg", workers=8, timeout=3000, coverage=False,
+                 note="the same invariants on the complete state graph for at most 5 elements (model checking only)")
+        ck.model("UnionFind-rank-log-bound", "MCUnionFind.tla", "MCUnionFind_ranklog.cfg", workers=4, expect="violation",
+                 note="reference only: 2^rank <= class size is NOT an invariant of the code because resize() keeps stale ranks (performance, not correctness)")
+    cases += list(cu.random_cases(ck.seed + 150, 400 if q else 20000, "uf-rnd"))
+    ck.traces(cases, [], tag="uf", spec=("UFTrace.tla", "UFTrace.cfg"), sample_events=("UF",), timeout_ms=60000)
+
+
 def plan_C15(ck):
     q = ck.tier == "quick"
+    union_find_replay(ck)
+    if q and ck.violations:
+        return
     basin_models(ck, "L2 basin graph: TreeMinimal (spanning forest + cycle property) for every order of tied edges and every choice among equally low passes")
     ck.traces(cf.basin_graph_cases(ck.seed + 15, 150 if q else 4000, 5 if q else 7, "C15", high_degree=12 if q else 150), ["C15"],
               tag="c15", nontrivial=cf.nontrivial_world, sample_events=("BasinGraph",))
+    if q and ck.violations:
+        return
+    hub_stage(ck, "C15", bgraph=True, routers=False)
 
 
 def plan_C14(ck):
